@@ -78,9 +78,26 @@ func ltAtom(name string, x, y vpred) atomDef {
 			if x(bo.Y) && y(bo.X) {
 				return true, true
 			}
+		case token.NEQ, token.EQL:
+			// a length is never negative: 0 != len(s) is 0 < len(s), in either operand order
+			for _, pr := range [][2]ssa.Value{{bo.X, bo.Y}, {bo.Y, bo.X}} {
+				if z, isC := constInt(pr[0]); isC && z == 0 && x(pr[0]) && y(pr[1]) && isLenOrCap(pr[1]) {
+					return true, bo.Op == token.EQL
+				}
+			}
 		}
 		return false, false
 	}}
+}
+
+// isLenOrCap: v is len(…) or cap(…) (possibly converted, possibly read back from a single-store local).
+func isLenOrCap(v ssa.Value) bool {
+	call, ok := cellValue(v).(*ssa.Call)
+	if !ok {
+		return false
+	}
+	b := calleeOf(&call.Call).Builtin
+	return b == "len" || b == "cap"
 }
 
 // boolAtom: v itself (a bool-typed value) satisfies the predicate.
